@@ -9,7 +9,7 @@ import os, re, sys, json, glob, shutil, subprocess, tempfile, argparse
 from concurrent.futures import ThreadPoolExecutor
 V = os.path.dirname(os.path.dirname(os.path.abspath(__file__)))
 sys.path.insert(0, V)
-ap = argparse.ArgumentParser(); ap.add_argument('header'); ap.add_argument('--jobs', type=int, default=8); ap.add_argument('--max', type=int, default=100000); ap.add_argument('--unit', default='')
+ap = argparse.ArgumentParser(); ap.add_argument('header'); ap.add_argument('--jobs', type=int, default=8); ap.add_argument('--max', type=int, default=100000); ap.add_argument('--unit', default=''); ap.add_argument('--lines', default='', help='only these line numbers, comma separated'); ap.add_argument('--only-delete', action='store_true')
 a = ap.parse_args()
 import units as U
 props = {u.name: u.props for u in U.all_units()}
@@ -35,6 +35,8 @@ for unit, ranges in sorted(src.items()):
                     muts.append((unit, hdr, ln, 'op %s->%s' % (m.group(0), rep), new))
             if st.endswith(';') and not re.match(r'(return|break|continue|const |auto |int |bool |size_t |uint\d+_t |process_result |HandledEnum |typename )', st) and '(' in st or re.match(r'[\w>\-\.\[\]\*]+ *[\|]?= *[^=]', st):
                 muts.append((unit, hdr, ln, 'delete statement', '/* deleted */'))
+if a.lines: muts = [m for m in muts if str(m[2]) in a.lines.split(',')]
+if a.only_delete: muts = [m for m in muts if m[3] == 'delete statement']
 muts = muts[:a.max]
 print('%d mutants over %d units' % (len(muts), len(src)), flush=True)
 def run(mu):
@@ -43,15 +45,18 @@ def run(mu):
     try:
         shutil.copytree('/repo/include', os.path.join(tmp, 'include'))
         f = os.path.join(tmp, 'include/boost/msm', hdr); L = open(f).read().split('\n'); old = L[ln - 1]; L[ln - 1] = newline; open(f, 'w').write('\n'.join(L))
-        verdicts = []
+        verdicts = []; why = ''
         for p in props.get(unit, []):
             if p == 'C13': continue
             env = dict(os.environ, VERIF_REPO=tmp, VERIF_EVIDENCE_DIR=os.path.join(tmp, 'ev'), VERIF_BUILD_TAG='sweep_' + os.path.basename(tmp), VERIF_NO_NATIVE='1')
             r = subprocess.run([os.path.join(V, 'check'), p, '--unit', unit, '--tier', 'quick', '--jobs', '2'], env=env, stdout=subprocess.PIPE, stderr=subprocess.STDOUT)
             verdicts.append(r.returncode)
+            if r.returncode == 2:
+                w = [l for l in r.stdout.decode(errors='replace').split('\n') if l.startswith('UNDECIDED') and 'reason=' in l]
+                if w: why = w[0].split('reason=', 1)[1][:160]
             if r.returncode == 1: break
         v = 'killed' if 1 in verdicts else ('undecided' if verdicts and all(x == 2 for x in verdicts) else 'SURVIVED')
-        return (v, unit, hdr, ln, what, old.strip()[:110])
+        return (v, unit, hdr, ln, what, old.strip()[:110] + ('   <' + why + '>' if v == 'undecided' else ''))
     finally:
         shutil.rmtree(tmp, ignore_errors=True); shutil.rmtree(os.path.join(V, 'build', 'sweep_' + os.path.basename(tmp)), ignore_errors=True)
 cnt = {}
